@@ -12,6 +12,7 @@ from pydoctor.templatewriter import (
     DOCTYPE, pages, summary, search, TemplateLookup, IWriter, StaticTemplate
 )
 
+from pydoctor.templatewriter.pages.table import ChildTable
 from twisted.python.failure import Failure
 from twisted.web.template import flattenString
 
@@ -80,6 +81,9 @@ class TemplateWriter(IWriter):
         for ob in obs:
             self._writeDocsFor(ob)
         self.dry_run = False
+        # The tables of members are numbered from 1 in every run: what the ids are must 
+        # not depend on what the process (sphinx extension, API use) has rendered before.
+        ChildTable.last_id = 0
         for ob in obs:
             self._writeDocsFor(ob)
 
